@@ -20,7 +20,7 @@ import os
 import time
 
 from vlib import core, xsltrun, xsltref, xsltgen, xpref, xsltcore
-from vlib import xsltgen_core2 as g2
+from vlib import xsltgen_core3 as g2        # core2's language + top-level variables / params (a superset)
 
 N_QUICK = 1300
 N_THOROUGH = 12000
@@ -42,17 +42,21 @@ def load_corpus():
         lines = [l for l in open(p, encoding="utf-8") if l.startswith("{")]
         if lines:
             d = ast.literal_eval(lines[-1].strip())
-            out.append((os.path.basename(p)[:-4], d["sheet"], d["doc"], d.get("expect", "")))
+            out.append((os.path.basename(p)[:-4], d["sheet"], d["doc"], d.get("expect", ""), d.get("ext", ())))
     return out
 
 
-def replay_text(what, sheet, doc, extra="", expect=""):
+def replay_text(what, sheet, doc, extra="", expect="", ext=()):
     main, _ = xsltgen.print_sheet(sheet)
     head = ["# C01core2: " + what]
     head += ["#   " + l for l in main.split("\n")]
     head.append("#   --- source: " + xsltgen.doc_xml(doc).replace("\n", "&#10;"))
     head += ["#   " + l for l in extra.split("\n") if l]
+    if ext:
+        head.append("#   --- external params: " + ", ".join("%s='%s'" % (n, s) for n, s in ext))
     d = {"kind": "core2", "sheet": sheet, "doc": doc}
+    if ext:
+        d["ext"] = tuple(ext)
     if expect:
         d["expect"] = expect
     return "\n".join(head) + "\n" + repr(d) + "\n"
@@ -69,15 +73,18 @@ class Stats:
         self.pairs = set()
         self.samples = []
         self.known = {}
+        self.forced = self.with_globals = 0
         self.flags = (True, True)
 
 
 def run_batch(ctx, exe, model, progs, st):
     cases = []
-    for cid, sheet, doc in progs:
+    for prog in progs:
+        cid, sheet, doc = prog[:3]
+        ext = prog[3] if len(prog) > 3 else ()
         st.programs += 1
         try:
-            c = g2.prepare(cid, sheet, doc, st.flags)
+            c = g2.prepare(cid, sheet, doc, st.flags, ext)
         except xsltref.XsltError as e:
             ctx.count("core2:skipped:reference-rejects(%s)" % str(e)[:20])
             st.skipped += 1
@@ -98,16 +105,16 @@ def run_batch(ctx, exe, model, progs, st):
             ctx.count("core2:skipped:too-deep")
             st.skipped += 1
             continue
-        c["sheet_ast"], c["doc"] = sheet, doc
+        c["sheet_ast"], c["doc"], c["ext"] = sheet, doc, tuple(ext)
         c["sheet"], c["files"] = xsltgen.print_sheet(sheet)
         c["source"] = xsltgen.doc_xml(doc)
         cases.append(c)
     if not cases:
         return
-    res = xsltrun.run([{k: c[k] for k in ("id", "sheet", "source", "files")} for c in cases], exe=exe)
+    res = xsltrun.run([{k: c[k] for k in ("id", "sheet", "source", "files", "params")} for c in cases], exe=exe)
     lost = [c for c in cases if res.get(c["id"], ("crash",))[0] == "crash"]
     for c in lost[:60]:
-        res[c["id"]] = xsltrun.run([{k: c[k] for k in ("id", "sheet", "source", "files")}], exe=exe, timeout=60).get(c["id"], ("crash",))
+        res[c["id"]] = xsltrun.run([{k: c[k] for k in ("id", "sheet", "source", "files", "params")}], exe=exe, timeout=60).get(c["id"], ("crash",))
     mres = {}
     if model:
         rc, mres, raw = core.run_lines_parallel(model, [c["line"] for c in cases])
@@ -152,10 +159,14 @@ def run_batch(ctx, exe, model, progs, st):
             continue
         m = mres.get(c["id"])
         what = None
-        if m is None or m.startswith("ERR") or len(m.split()) != 4:
+        if m is None or m.startswith("ERR") or len(m.split()) != 5:
             st.diffs.append((c, "the driver gives no result (%s)" % (m or "no line")[:120]))
             continue
-        mt, sg, su, miss = m.split()
+        mt, sg, su, miss, lz = m.split()
+        if c["n_globals"]:
+            ctx.count("core2:toplevel:%s" % ("Lok" if lz.startswith("Lok") else lz))
+            st.forced += c["n_forced"]
+            st.with_globals += 1
         mm, ms, mu = miss.split(",")
         bad_m = mt in ("NONE", "STUCK", "ILL")
         mtree = None if bad_m else g2.norm_tree(xsltcore.parse_tree_token(mt))
@@ -213,6 +224,9 @@ def run_batch(ctx, exe, model, progs, st):
                 ctx.count("core2:stylesheet-in-error:machine-left-the-tables")
             if not ref_ok:
                 st.err_class_differs += 1
+        if what is None and not lz.startswith("Lok") and (su != "NONE" or lz != "Lundef"):
+            # the extracted lazy evaluation, run in the order of the reference's first references, must give the reference values
+            what = "lazy evaluation of the top-level bindings (%s) on a program the reference runs" % lz
         if what is None:
             st.agree += 1
             ctx.cov["traces_validated_against_impl"] = ctx.cov.get("traces_validated_against_impl", 0) + 1
@@ -222,9 +236,10 @@ def run_batch(ctx, exe, model, progs, st):
 
 def check_expected(ctx, exe, entry, st):
     """a corpus replay with an expected output: the library must produce exactly that tree (regressions of repaired findings)"""
-    name, sheet, doc, expect = entry
+    name, sheet, doc, expect, ext = entry
     main, files = xsltgen.print_sheet(sheet)
-    o = xsltrun.run([{"id": "k", "sheet": main, "source": xsltgen.doc_xml(doc), "files": files}], exe=exe, timeout=60).get("k", ("crash",))
+    o = xsltrun.run([{"id": "k", "sheet": main, "source": xsltgen.doc_xml(doc), "files": files, "params": {n: "'%s'" % s for n, s in ext}}],
+                    exe=exe, timeout=60).get("k", ("crash",))
     why = None
     if o[0] != "ok":
         why = "the library fails (%s %s)" % (o[0], " ".join(str(x) for x in o[1:])[:200])
@@ -257,7 +272,7 @@ def run_part(ctx):
     if not ok_lib:
         ctx.broken.append("core2: library does not build from the working tree: " + liblog[-500:])
         return
-    proved = ctx.prove(["Properties_C01core2.v"], ["GenXsltCore2"])
+    proved = ctx.prove(["Properties_C01core2.v", "Properties_C01core3.v"], ["GenXsltCore2", "GenXsltCore3"])
     model, ok_m, mlog = g2.build_driver()
     if not ok_m:
         ctx.broken.append("core2: model extraction/build failed: " + mlog[-500:])
@@ -278,7 +293,7 @@ def run_part(ctx):
         if e[3]:
             check_expected(ctx, exe, e, st)          # alone first: a crash must not take other cases with it
     if corpus:
-        run_batch(ctx, exe, model, [("k_" + n, s, d) for n, s, d, _ in corpus], st)
+        run_batch(ctx, exe, model, [("k_" + n, s, d, x) for n, s, d, _, x in corpus], st)
     n = N_THOROUGH if ctx.thorough else N_QUICK
     done = 0
     rounds = 0
@@ -286,8 +301,8 @@ def run_part(ctx):
         k = min(BATCH, n - done)
         progs = []
         for i in range(k):
-            sheet, doc = g2.gen_case(ctx.rng)
-            progs.append(("h%d_%d" % (rounds, i), sheet, doc))
+            sheet, doc, ext = g2.gen_case(ctx.rng)
+            progs.append(("h%d_%d" % (rounds, i), sheet, doc, ext))
         run_batch(ctx, exe, model, progs, st)
         done += k
         rounds += 1
@@ -302,7 +317,8 @@ def run_part(ctx):
                              "source_variant": {"fragment_leaves_text_only_mode": st.flags[0], "copy_skips_ignored_element": st.flags[1]},
                              "in_class_" + KEY1: st.k1, "in_class_visible": st.k1_visible, "stylesheets_in_error": st.err_class,
                              "stylesheets_in_error_recovery_differs": st.err_class_differs, "xpath_entries": st.ev,
-                             "xpath_evaluations": st.evals, "instructions": st.instrs, "proved": bool(proved),
+                             "xpath_evaluations": st.evals, "instructions": st.instrs, "proved": bool(proved), "programs_with_toplevel_bindings": st.with_globals,
+                             "toplevel_bindings_forced": st.forced,
                              "seconds": round(time.time() - t0, 1)}
     d = os.path.join(core.OUT, ctx.pid)
     os.makedirs(d, exist_ok=True)
@@ -315,12 +331,12 @@ def run_part(ctx):
                 "reference tree != library tree: a result tree fragment built inside the content of a comment / PI loses the non-text nodes xsl:copy-of adds",
                 c["sheet_ast"], c["doc"]))
     for c, what in st.violations[:3]:
-        ctx.violation("core2_oracle", replay_text(what.split("\n")[0], c["sheet_ast"], c["doc"], what, expect=c.get("expect", "")))
+        ctx.violation("core2_oracle", replay_text(what.split("\n")[0], c["sheet_ast"], c["doc"], what, expect=c.get("expect", ""), ext=c.get("ext", ())))
     if len(st.violations) > 3:
         ctx.notes["C01core2_more_violations"] = len(st.violations) - 3
     for i, (c, what) in enumerate(st.diffs[:5]):
         p = os.path.join(d, "core2_diff_%d.txt" % i)
         with open(p, "w", encoding="utf-8") as f:
-            f.write(replay_text(what.split("\n")[0], c["sheet_ast"], c["doc"], what))
+            f.write(replay_text(what.split("\n")[0], c["sheet_ast"], c["doc"], what, ext=c.get("ext", ())))
         ctx.broken.append("core2 correspondence: %s [%s] (%d such programs of %d)" % (what.split("\n")[0], p, len(st.diffs), st.programs))
     return st
